@@ -3,6 +3,7 @@
 //   clamp | backup | nn | linear | affine | config
 // Expected values are the layers' one-line definitions evaluated in long double; bounds are chosen NOT to be representable as
 // double (0.1L, 1 + LDBL_EPSILON, nextafter(3.5L, 0)).
+#include "ambient.hpp"
 #include <covfie/core/backend/primitive/array.hpp>
 #include <covfie/core/backend/primitive/identity.hpp>
 #include <covfie/core/backend/transformer/affine.hpp>
@@ -140,6 +141,7 @@ static std::string op_affine() {
 int main() {
   std::string line;
   while (std::getline(std::cin, line)) {
+    vf::ambient();
     std::string r = line == "clamp" ? op_clamp() : line == "backup" ? op_backup() : line == "nn" ? op_nn() : line == "linear" ? op_linear() :
                     line == "affine" ? op_affine() : std::string("unsupported");
     std::cout << r << std::endl;
